@@ -64,19 +64,28 @@ InFamily(x) ==
     [] Fam = "C13" -> \/ x \in [op : {"map", "filter"}, co : 1..Len(CO13), ex : 1..Len(EX13), ini : {0}, d : {1}]
                       \/ x \in [op : {"reduce"}, co : {1, 3, 6, 8, 10, 12, 15}, ex : 1..Len(RX13), ini : {1, 4, 6, 8}, d : {1}]
     [] Fam = "C14" -> x \in [q : 1..3, co : 1..Len(CO14), pr : 1..Len(PR14), d : {1, 3}]
+    \* a small cross-section of all families, used for the action-coverage report of bin/selftest
+    [] Fam = "COV" -> \/ x \in [o : 1..4, syms : {<<1, 2, 5>>, <<2, 1>>, <<5, 3>>}]
+                      \/ x \in [r : {1, 2, 6, 8, 10, 15, 16, 17, 28}, d : {1}]
+                      \/ x \in [op : {"map", "filter"}, co : {1, 8, 10}, ex : {1, 3}, ini : {0}, d : {1}]
+                      \/ x \in [op : {"reduce"}, co : {1, 8}, ex : {1}, ini : {1, 4}, d : {1}]
+                      \/ x \in [q : 1..3, co : {1, 4, 15, 18, 26}, pr : {1, 3}, d : {1}]
 
+KindOf(cc) == IF Fam # "COV" THEN Fam
+              ELSE IF "syms" \in DOMAIN cc THEN "C05" ELSE IF "r" \in DOMAIN cc THEN "C04"
+              ELSE IF "op" \in DOMAIN cc THEN "C13" ELSE "C14"
 RuleOf(cc) ==
-  CASE Fam = "C05" -> Rule05(cc)
-    [] Fam = "C04" -> R04[cc.r]
-    [] Fam = "C13" -> (CASE cc.op = "map" -> Op(K_map, <<CO13[cc.co], EX13[cc.ex]>>)
+  CASE KindOf(cc) = "C05" -> Rule05(cc)
+    [] KindOf(cc) = "C04" -> R04[cc.r]
+    [] KindOf(cc) = "C13" -> (CASE cc.op = "map" -> Op(K_map, <<CO13[cc.co], EX13[cc.ex]>>)
                          [] cc.op = "filter" -> Op(K_filter, <<CO13[cc.co], EX13[cc.ex]>>)
                          [] cc.op = "reduce" -> Op(K_reduce, <<CO13[cc.co], RX13[cc.ex], IN13[cc.ini]>>))
-    [] Fam = "C14" -> Op(QOps[cc.q], <<CO14[cc.co], PR14[cc.pr]>>)
+    [] KindOf(cc) = "C14" -> Op(QOps[cc.q], <<CO14[cc.co], PR14[cc.pr]>>)
 DataOf(cc) ==
-  CASE Fam = "C05" -> D05
-    [] Fam = "C04" -> D04[cc.d]
-    [] Fam = "C13" -> D13[cc.d]
-    [] Fam = "C14" -> D14[cc.d]
+  CASE KindOf(cc) = "C05" -> D05
+    [] KindOf(cc) = "C04" -> D04[cc.d]
+    [] KindOf(cc) = "C13" -> D13[cc.d]
+    [] KindOf(cc) = "C14" -> D14[cc.d]
 
 Init == /\ InFamily(c)
         /\ rule = RuleOf(c) /\ data = DataOf(c) /\ phase = "run"
@@ -89,16 +98,16 @@ FairSpec == Spec /\ WF_vars(Step /\ UNCHANGED c)
 \* ---------------- family-specific properties
 \* C05: ?: is if (same behaviour under both names); results are operand values
 TernIsIf ==
-  Fam = "C05" /\ phase = "done" /\ c.o = 2 =>
+  KindOf(c) = "C05" /\ phase = "done" /\ c.o = 2 =>
     LET a == Eval(rule, data)
         b == Eval(Rule05([c EXCEPT !.o = 1]), data)
     IN a.ok = b.ok /\ (a.ok => SameValue(a.v, b.v)) /\ a.log = b.log
 \* C05: the log sequence of a control-flow rule is exactly the big-step one (lazy operators pin the order)
 ExactLogOrder ==
-  Fam \in {"C05", "C13", "C14"} /\ phase = "done" => out = Eval(rule, data).log
+  KindOf(c) \in {"C05", "C13", "C14"} /\ phase = "done" => out = Eval(rule, data).log
 \* C04: no data-resident marker is ever executed: the LEAK line is never printed, the secret never read through a marker
 S_LEAK == <<76, 69, 65, 75>>
-NoLeak == Fam = "C04" => \A j \in DOMAIN out : ~SameValue(out[j], Str(S_LEAK))
+NoLeak == KindOf(c) = "C04" => \A j \in DOMAIN out : ~SameValue(out[j], Str(S_LEAK))
 
 \* ---------------- export (direction A): one line per terminal state
 CaseLine(id, r, d, okv, v, lg, sc, fl) ==
